@@ -9,7 +9,7 @@ from .. import ops, snap
 from ..env import xgi
 from ..monitor import KNOWN_PATH, short
 
-_ALIAS = {"relabel": "convert_labels_to_integers", "lcc": "largest_connected_hypergraph"}
+_ALIAS = {"relabel": "convert_labels_to_integers", "lcc": "largest_connected_hypergraph", "set_net_attr": "__setitem__"}
 
 
 def op_names(cls):
